@@ -3,7 +3,7 @@ package main
 func init() {
 	props = append(props, prop{
 		ID: "C12", Title: "WebSocket message round trip: framing, masking, fragmentation, compression", Level: "exploration",
-		Rule:        "in-memory differential check against an independent RFC 6455/7692 codec (internal/wsref), three directions: send = nbio WriteMessage (server and client conn) -> captured bytes -> reference decoder (mask bit per role, fragment payload <= MaxWebsocketFramePayloadSize, RSV1 only on the first frame of a compressed message, minimal length encoding, decoded (type,payload) sequence equals what was written); recv = reference encoder (random fragmentation incl. empty fragments, interleaved pings/pongs, masking for client->server, permessage-deflate at levels -2..9) -> segmentation (whole, every single cut for images <= 2 KiB, byte at a time, fixed chunks, random cuts) -> nbio Parse with an inline executor -> OnMessage sequence must equal the sent sequence exactly once, in order, same type and payload, no Parse error and no close; loop = nbio sender -> bytes -> nbio receiver of the opposite role. evaluations = executions of one message sequence through one sender or one receiver under one segmentation; a case (dir,index) is non-trivial when its comparison completed without violation and at least one message was compared byte for byte (send: decoded from nbio's frames by the reference; recv/loop: at least one non-empty message reached OnMessage and matched). Phase conc: 2-8 connections of one process (each a sender endpoint and a receiver endpoint of the opposite role, 3 of 4 with permessage-deflate) run their message sequences at the same time on their own goroutines - what the package shares between connections (flate reader/writer pools, buffer pool) is used concurrently; every written message must be delivered to the paired receiver exactly once, in order, same type and payload, no Parse error, no close, no recovered panic; one evaluation per connection",
+		Rule:        "in-memory differential check against an independent RFC 6455/7692 codec (internal/wsref), three directions: send = nbio WriteMessage (server and client conn) -> captured bytes -> reference decoder (mask bit per role, fragment payload <= MaxWebsocketFramePayloadSize, RSV1 only on the first frame of a compressed message, minimal length encoding, decoded (type,payload) sequence equals what was written); recv = reference encoder (random fragmentation incl. empty fragments, interleaved pings/pongs, masking for client->server, permessage-deflate at levels -2..9) -> segmentation (whole, every single cut for images <= 2 KiB, byte at a time, fixed chunks, random cuts) -> nbio Parse with an inline executor -> OnMessage sequence must equal the sent sequence exactly once, in order, same type and payload, no Parse error and no close; loop = nbio sender -> bytes -> nbio receiver of the opposite role. evaluations = executions of one message sequence through one sender or one receiver under one segmentation; a case (dir,index) is non-trivial when its comparison completed without violation and at least one message was compared byte for byte (send: decoded from nbio's frames by the reference; recv/loop: at least one non-empty message reached OnMessage and matched). Phase conc: 2-8 connections of one process (each a sender endpoint and a receiver endpoint of the opposite role, 3 of 4 with permessage-deflate) run their message sequences at the same time on their own goroutines - what the package shares between connections (flate reader/writer pools, buffer pool) is used concurrently; every written message must be delivered to the paired receiver exactly once, in order, same type and payload, no Parse error, no close, no recovered panic; one evaluation per connection. Frame limits above the 16-bit length class (65536, 131072) are part of the boundary cases, so that frames of exactly 65536 bytes are written and read",
 		Assumptions: commonAssumptions,
 		Phases: []phase{
 			{Name: "main", Pkg: "./workers/c12", QuickShards: 8, ThorShards: 16},
